@@ -85,4 +85,4 @@ package errorhandler
 //@   ensures ret2 == nil ==> gam.n == old(gam.n) + 1 && gam.ret2[old(gam.n)] == nil
 //@   ensures ret2 == nil && (gam.ret0[old(gam.n)].Subtype == "html" || gam.ret0[old(gam.n)].Subtype == "json" || gam.ret0[old(gam.n)].Subtype == "xml") ==> ret0 == gam.ret0[old(gam.n)]
 //@   ensures ret2 == nil && gam.ret0[old(gam.n)].Subtype != "html" && gam.ret0[old(gam.n)].Subtype != "json" && gam.ret0[old(gam.n)].Subtype != "xml" ==> ret0.Type == "text" && ret0.Subtype == "plain"
-//@   assert at call GetAcceptableMediaType#1: callarg1 == supportedMediaTypes
+//@   assert at call GetAcceptableMediaType#1@3178bdcf.1: callarg1 == supportedMediaTypes
